@@ -8,6 +8,10 @@
 (* one token per step; when the trace is exhausted (or every path has      *)
 (* stopped) one line is printed with the outcome of every path at end of   *)
 (* input -- the same format as SieveEnum.                                  *)
+(* Token values are opaque here (equality only).  The harness sends every value that has a character outside     *)
+(* ASCII in an ASCII armour (prefix 0x02 + JSON escapes) and restores it in what is printed: TLC writes strings    *)
+(* with one octet per character when states are spilled to its disk queue, which mangles such values in batches   *)
+(* of more than ~15 000 traces.                                                                                    *)
 (***************************************************************************)
 EXTENDS SieveGrammar, Json, IOUtils, SequencesExt
 
